@@ -34,6 +34,7 @@ import (
 	"math/big"
 	"net"
 	"os"
+	"runtime"
 	"strings"
 	"sync"
 	"sync/atomic"
@@ -269,7 +270,12 @@ func isTimeout(err error) bool {
 		return false
 	}
 	var ne net.Error
-	return errors.Is(err, os.ErrDeadlineExceeded) || errors.Is(err, context.DeadlineExceeded) || (errors.As(err, &ne) && ne.Timeout())
+	if errors.Is(err, os.ErrDeadlineExceeded) || errors.Is(err, context.DeadlineExceeded) || (errors.As(err, &ne) && ne.Timeout()) {
+		return true
+	}
+	// wrapped stream / connection errors do not always keep the Timeout() interface
+	m := strings.ToLower(err.Error())
+	return strings.Contains(m, "deadline") || strings.Contains(m, "timeout") || strings.Contains(m, "timed out")
 }
 
 // sysSend writes prf(stream, 0..total) in random chunk sizes.
@@ -752,11 +758,12 @@ func sysJudge(c *sysCase, out *sysOutcome) (safety []sysVerdict, failed []string
 			failed = append(failed, fmt.Sprintf("stream %d: NewStream: %s", k, o.OpenErr))
 		case !o.HandlerRan:
 			failed = append(failed, fmt.Sprintf("stream %d: handler never ran", k))
-		case o.Trailer == "mismatch" && o.Up.BadAt < 0 && o.Up.Total == int64(sp.Up):
-			// the handler verified every byte it received, yet its digest arrived different: the reply
-			// direction delivered bytes that were not written
-			safety = append(safety, sysVerdict{"sys:reply-after-half-close-corrupt/" + c.Cfg, fmt.Sprintf("stream %d: digest trailer differs from what the handler wrote", k)})
-		case o.Trailer != "ok" && o.Down.EOF && o.Down.Total == int64(sp.Down)+sysTrailerLen:
+		case o.Trailer != "ok" && o.Trailer != "missing" &&
+			o.Up.EOF && o.Up.BadAt < 0 && o.Up.Total == int64(sp.Up) && o.DownW.ok(sp.Down) &&
+			o.Down.EOF && o.Down.BadAt < 0 && o.Down.Total == int64(sp.Down)+sysTrailerLen:
+			// the handler received every byte and a clean EOF, so the digest it wrote is the digest of the
+			// payload; the opener got the right number of reply bytes and a clean EOF, yet the trailer differs:
+			// bytes written after the half-close did not arrive as written
 			safety = append(safety, sysVerdict{"sys:reply-after-half-close-corrupt/" + c.Cfg, fmt.Sprintf("stream %d: trailer %s", k, o.Trailer)})
 		}
 		if !o.UpW.ok(sp.Up) && o.OpenErr == "" {
@@ -775,16 +782,24 @@ func (s *state) system() {
 	if os.Getenv("VERIF_RACE") == "1" {
 		return
 	}
+	// nothing started here may outlive this family (other families run in synctest bubbles in this process)
+	baseline := runtime.NumGoroutine()
+	defer func() {
+		for dl := time.Now().Add(10 * time.Second); runtime.NumGoroutine() > baseline && time.Now().Before(dl); {
+			time.Sleep(20 * time.Millisecond)
+		}
+		s.r.Count("sys_goroutines_left_after_family", max(0, runtime.NumGoroutine()-baseline))
+	}()
 	cfgs := s.sysConfigs()
-	perCfg := s.r.Pick(5, 150)
+	perCfg := s.r.Pick(10, 150)
 	var cases []*sysCase
 	for ci, cfg := range cfgs {
 		for i := 0; i < perCfg; i++ {
 			idx := i
 			if s.r.Quick() {
-				idx = int(s.r.Seed%1000)*5 + i // the quick subset rotates with the seed
+				idx = int(s.r.Seed%1000)*10 + i // the quick subset rotates with the seed
 			}
-			big := !s.r.Quick() || (i == 0 && ci == int(s.r.Seed)%len(cfgs) && cfg.Name != "webrtc-direct")
+			big := !s.r.Quick() || i < 2 || ci == 0 // 1 MiB streams: everywhere in thorough, in two cases per configuration in quick
 			cases = append(cases, s.sysGen(cfg, idx, big))
 		}
 	}
@@ -888,7 +903,7 @@ func (s *state) system() {
 	}
 	for _, cfg := range cfgs {
 		if _, un := unavailable[cfg.Name]; !un {
-			s.r.Require("sys_cases_completed/"+cfg.Name, s.r.Pick(2, 100))
+			s.r.Require("sys_cases_completed/"+cfg.Name, s.r.Pick(6, 120)) // of 10 / 150
 		}
 	}
 	s.r.Require("sys_streams_completed", s.r.Pick(100, 4000))
@@ -896,6 +911,12 @@ func (s *state) system() {
 	s.r.Require("sys_lazy_multistream_streams", s.r.Pick(50, 2000))
 	s.r.Require("sys_eager_multistream_streams", s.r.Pick(10, 500))
 	s.r.Require("sys_dribbled_writes", s.r.Pick(30, 1000))
+	// path classes this sweep exists for: a run in which they all hung or failed must not pass as "nothing seen"
+	s.r.Require("sys_zero_length_then_close", s.r.Pick(2, 200))
+	s.r.Require("sys_mode_close-first", s.r.Pick(20, 1000))
+	s.r.Require("sys_mode_duplex", s.r.Pick(20, 1000))
+	s.r.Require("sys_mode_read-first", s.r.Pick(5, 300))
+	s.r.Require("sys_streams_1MiB", s.r.Pick(1, 300))
 	s.r.Require("sys_cases_completed/tcp-noise", 1) // these need nothing but loopback TCP: never "unavailable"
 	s.r.Require("sys_cases_completed/shared-tcp-noise", 1)
 }
